@@ -19,6 +19,8 @@
 (* Values are tagged records [t, v]:                                       *)
 (*   "int" n | "half" n (the float n/2) | "str" s | "cat" s (a Categorical *)
 (*   over Levels) | "lst" <<values>> (a Python list) | "none"              *)
+(*   a "cat" handed to the implementation may carry lv = the order in which *)
+(*   THIS object lists the levels (OwnLevels); without lv: Levels           *)
 (*   "seq" <<values>> (dense features) | "map" <<<<key, value>>, ..>>      *)
 (* Rewards are exact rationals <<num, den>>, den > 0.                      *)
 (***************************************************************************)
@@ -153,6 +155,16 @@ FName(j) == "f" \o ToString(j)
 Names(c) == InsertAt([j \in 1..c.nf |-> FName(j)], c.pos, "lbl")     \* header of column k-1 is Names(c)[k]
 
 Y(c, i) == LabelVal(c.lk, c.lab[i])
+(* A categorical label IS its value; every categorical object also lists the levels of its attribute, in   *)
+(* the order of the declaration it was read under.  lo = "same": every label of the data lists Levels;      *)
+(* lo = "own": example i lists the same levels in its own order (examples merged from files that declare   *)
+(* the nominal classes in different orders), none of the first four orders being that of another.  The     *)
+(* order is presentation only: it enters the INPUT (YIn), never the examples the input denotes (Y), so     *)
+(* the expected interactions cannot depend on it ("reward is 1 for the example's label": the label, not    *)
+(* its position in some list of levels).                                                                    *)
+LvPerms == << <<2, 1, 3>>, <<1, 2, 3>>, <<3, 2, 1>>, <<2, 3, 1>> >>
+OwnLevels(i) == LET p == LvPerms[((i - 1) % 4) + 1] IN [k \in 1..3 |-> Levels[p[k]]]
+YIn(c, i) == IF c.lk = "cat" /\ c.lo = "own" THEN [t |-> "cat", v |-> Y(c, i).v, lv |-> OwnLevels(i)] ELSE Y(c, i)
 (* the key under which a sparse example presents feature j *)
 FKey(c, j) == CASE c.src = "sparse" -> IF c.by = "name" THEN S(FName(j)) ELSE I(Col(c, j))
                 [] c.src = "arffS"  -> S(FName(j))                   \* ARFF rows are keyed by attribute name
@@ -169,13 +181,15 @@ Examples(c) == [i \in 1..c.n |-> [x |-> X(c, i), y |-> Y(c, i)]]
 LabelCol(c) == IF Pairs(c.src) THEN NoneV ELSE IF c.by = "name" THEN S("lbl") ELSE I(c.pos)
 (* object rows: a dense row is the features with the label inserted at pos; a sparse row is a map *)
 LKey(c) == IF c.by = "name" THEN S("lbl") ELSE I(c.pos)
-SparseRow(c, i) ==
+SparseRowW(c, i, y) ==
   LET js == Js(c, i)
       before == SelectSeq(js, LAMBDA j : Col(c, j) < c.pos)
       after  == SelectSeq(js, LAMBDA j : Col(c, j) > c.pos)
       P(s) == [k \in DOMAIN s |-> <<FKey(c, s[k]), FVal(c, i, s[k])>>]
-  IN  SparseV(P(before) \o <<<<LKey(c), Y(c, i)>>>> \o P(after))
-Row(c, i) == IF c.src = "sparse" THEN SparseRow(c, i) ELSE DenseV(InsertAt(X(c, i).v, c.pos, Y(c, i)))
+  IN  SparseV(P(before) \o <<<<LKey(c), y>>>> \o P(after))
+RowW(c, i, y) == IF c.src = "sparse" THEN SparseRowW(c, i, y) ELSE DenseV(InsertAt(X(c, i).v, c.pos, y))
+Row(c, i)   == RowW(c, i, Y(c, i))          \* the row the source denotes
+RowIn(c, i) == RowW(c, i, YIn(c, i))        \* the row object handed over (a categorical label with its own level order)
 (* text: a canonical writer (no quoting, no blanks; the file syntax itself is C12's subject) *)
 (* a field that is empty or begins / ends with a blank is written quoted, as the grammars require (RFC 4180 *)
 (* double quotes for CSV, single quotes for an ARFF string value); nothing else is ever quoted             *)
@@ -207,9 +221,9 @@ Lines(c) ==
 Input(c) ==
   [src |-> c.src, lt |-> c.lt, take |-> c.take, labelcol |-> LabelCol(c),
    headers |-> IF c.src = "rowsH" THEN Names(c) ELSE <<>>,
-   rows  |-> IF c.src \in {"rows", "rowsH", "sparse"} THEN [i \in 1..c.n |-> Row(c, i)] ELSE <<>>,
+   rows  |-> IF c.src \in {"rows", "rowsH", "sparse"} THEN [i \in 1..c.n |-> RowIn(c, i)] ELSE <<>>,
    xs    |-> IF c.src = "xy" THEN [i \in 1..c.n |-> X(c, i)] ELSE <<>>,
-   ys    |-> IF c.src = "xy" THEN [i \in 1..c.n |-> Y(c, i)] ELSE <<>>,
+   ys    |-> IF c.src = "xy" THEN [i \in 1..c.n |-> YIn(c, i)] ELSE <<>>,
    lines |-> Lines(c)]
 
 (***************************************************************************)
@@ -243,6 +257,8 @@ XKsOf(src, lk) == IF src # "xy" THEN {"-"} ELSE IF IsMulti(lk) THEN XKs \cap {"t
 NRange(src, lk) == IF IsMulti(lk) THEN 1..MaxRowsM ELSE IF Text(src) THEN 1..MaxRows ELSE 0..MaxRows
 FVsOf(src) == IF Dense(src) THEN FeatVals ELSE {"distinct"}
 NRangeFV(src, lk, fv) == IF fv = "label" THEN {n \in NRange(src, lk) : n <= MaxRowsL} ELSE NRange(src, lk)
+(* the level order of categorical labels: objects only (in an ARFF file one declaration orders all labels) *)
+LOsOf(src, lk, n) == IF lk = "cat" /\ n >= 1 /\ src \in {"xy", "rows", "rowsH", "sparse"} THEN {"same", "own"} ELSE {"same"}
 Choices(lk) == IF IsMulti(lk) THEN {s \in MSeqs : \A k \in DOMAIN s : s[k] <= NL} ELSE 1..NL
 
 (* How the given label type is spelled (for every source, label kind and construction): SpellRule   *)
@@ -256,9 +272,9 @@ Spelled(lt, lk, n, lab) ==
 Init == /\ go = FALSE
         /\ \E src \in Srcs : \E cb \in Combos(src) : \E sh \in ShapesOf(src) : \E by \in Bys(src) :
            \E tk \in TakesOf(src) : \E fv \in FVsOf(src) : \E xk \in XKsOf(src, cb[1]) : \E n \in NRangeFV(src, cb[1], fv) :
-           \E lab \in [1..n -> Choices(cb[1])] :
+           \E lab \in [1..n -> Choices(cb[1])] : \E lo \in LOsOf(src, cb[1], n) :
              /\ case = [src |-> src, lk |-> cb[1], lt |-> Spelled(cb[2], cb[1], n, lab), nf |-> sh[1], pos |-> sh[2], by |-> by,
-                        take |-> tk, fv |-> fv, xk |-> xk, n |-> n, lab |-> lab]
+                        take |-> tk, fv |-> fv, xk |-> xk, n |-> n, lab |-> lab, lo |-> lo]
              /\ perm = Order(n, tk)
 Next == ~go /\ go' = TRUE /\ UNCHANGED <<case, perm>>
 Spec == Init /\ [][Next]_vars
@@ -326,6 +342,12 @@ ContextIsRowWithoutLabel == (go /\ Dense(case.src)) =>
 FeatureEqualsLabel == (go /\ case.fv = "label" /\ case.nf >= 1) =>
   \A i \in 1..case.n : /\ (case.nf >= 2 \/ i % 2 = 1) => (\E j \in 1..case.nf : X(case, i).v[j] = Y(case, i))
                        /\ (case.nf = 2 /\ i % 2 = 1) => (X(case, i).v[1] = Y(case, i) /\ X(case, i).v[2] # Y(case, i))
+(* the level order is presentation: what is handed over is the same label over the same set of levels, and with n >= 2 *)
+(* "own" does what it is for - two labels of one dataset list the levels in different orders                          *)
+LevelOrderIsPresentation == go =>
+  /\ \A i \in 1..case.n : /\ YIn(case, i).t = Y(case, i).t /\ YIn(case, i).v = Y(case, i).v
+                           /\ Range(OwnLevels(i)) = Range(Levels) /\ Len(OwnLevels(i)) = Len(Levels)
+  /\ (case.lo = "own" /\ case.n >= 2) => YIn(case, 1).lv # YIn(case, 2).lv
 (* the expectation is a function of the meaning of the label type, not of its spelling *)
 SpellingIrrelevant == (go /\ Data # <<>>) =>
   /\ EffType(Upper(case.lt), Data) = T /\ EffType(Norm(case.lt), Data) = T
